@@ -20,3 +20,45 @@ TEXT["C03"] = {
     "note": ("Trusted: Lean kernel + 3 standard axioms; the harness and its generator; float32 completeness comparison is an abstract predicate in the proof "
              "and an exact emulation in the driver; int64 overflow of now*1000 not modelled. The tie is sampled, not exhaustive."),
 }
+
+TEXT["C01"] = {
+    "design_ref": "DESIGN.md §4.1",
+    "technique": "Lean 4 theorems over the storage model (refinement of the ring code to a list-level step + exact-lag lemmas) + differential correspondence on storage histories",
+    "text": ("Proof: Props/C01.lean proves, for every storage state, that the fetch-time lag pass reports max(0, broker - commit) of the newest broker value and the newest commit, "
+             "never the wrapped value (currentLag_exact, lagAt_exact, wrap_witness), zero for partitions without commits (no_commit_zero); and for every ring size, minimum distance and arrival "
+             "history that a stored commit carries a lag exactly when it arrived as the newest in the log, computed against the broker offset known at that arrival, and none when it arrived "
+             "out of order (commitLag_at_arrival, storedLag_has_origin, via the refinement theorem of C02). Tie: differential run of the real handlers vs the compiled model on generated histories; "
+             "the lag fields are functions of the history, so any disagreement is a concrete failing input."),
+    "note": ("Trusted: Lean kernel + 3 standard axioms; harness/generator; offsets assumed in [0,2^63) for exactness (wrap reproduced in the model outside); the tie is sampled. "
+             "Not modelled: ObservedTimestamp, broker timestamps, logging."),
+}
+TEXT["C02"] = {
+    "design_ref": "DESIGN.md §4.2",
+    "technique": "Lean 4 refinement proof: pointer-level ring model of the Go code = abstract sorted-window step, for all ring sizes and arrival sequences; + differential correspondence",
+    "text": ("Proof: Props/C02.lean proves for every ring size N>=1, every minimum distance and every finite arrival sequence that the pointer-level model of findConsumerOffsetDestination / "
+             "mergeFrequentCommitIntoPrevious / storeConsumerOffset never runs out of fuel, refines a list-level step (refines_abstract_step), keeps the window shape 'blanks first, then strictly "
+             "increasing log positions' (window_inv, step_preserves), holds the newest commit last (newest_is_max), is exactly the top-N of the commits seen and independent of arrival order and "
+             "duplication when min-distance is 0 and timestamps are monotone (window_is_topN, arrival_order_irrelevant), and characterises drop / merge / own-slot per arrival (dropped_step, merge_step, "
+             "own_slot_step). Tie: differential run of the real storage handlers vs the compiled model with dense position collisions; the window is a function of the history."),
+    "note": ("Trusted: Lean kernel + 3 standard axioms; harness; container/ring modelled as a circular array. One stated reading: a non-newest commit whose predecessor is the oldest entry of a full "
+             "window replaces it outright (MergePred). The tie is sampled."),
+}
+TEXT["C06"] = {
+    "design_ref": "DESIGN.md §4.6",
+    "technique": "Lean 4 theorems over a byte-level decoder model with explicit panic and allocation outcomes (for all byte strings) + differential correspondence incl. per-message allocation measurement",
+    "text": ("Proof: Props/C06.lean proves for every key/value byte string that the model of processConsumerOffsetsMessage never panics (process_never_panics), requests at most "
+             "100*(|key|+|value|)+64KiB through make/conversions (process_alloc_bounded), and produces an offset update only from a fully present, sanely-lengthed commit (malformed_commit_skipped). "
+             "Tie: the real decoder (hooked, in-process, child process with address-space cap) vs the compiled model on structured messages with every truncation and every length/count field set to "
+             "extreme values, comparing emitted requests, panics and a TotalAlloc verdict. Three genuine defects found this way were repaired in /repo (fix: commits, known_findings.json)."),
+    "note": ("Trusted: Lean kernel + 3 standard axioms; harness; allocation = requested sizes in the theorem, observed TotalAlloc on the implementation (+16 KiB slack); bytes.Buffer/encoding/binary "
+             "semantics as modelled. The tie is sampled."),
+}
+TEXT["C07"] = {
+    "design_ref": "DESIGN.md §4.7",
+    "technique": "Lean 4 round-trip theorems (decode . encode) over all field values and versions + differential correspondence with an independent Go encoder",
+    "text": ("Proof: Props/C07.lean proves decode-after-encode round trips for every well-formed offset commit (key v0/v1, value v0/v1/v3, any strings incl. empty/null, any integers, trailing bytes) "
+             "and every well-formed group-metadata message (value v0-v3, any members/topics/partitions): exactly one offset update ordered by the message's own log position; one owner update per assigned "
+             "topic-partition with the member's host and client id; empty member list clears; tombstone deletes; other protocol types and offset tombstones yield nothing. Tie: real decoder vs compiled "
+             "model on messages produced by an independent Go encoder; the repo's literal test fixtures are proved to be encodings in the sense of the spec."),
+    "note": ("Trusted: Lean kernel + 3 standard axioms; the hand transcription of the Kafka formats (Spec/Wire.lean); harness; owner updates compared as a sorted multiset per message. The tie is sampled."),
+}
